@@ -4,6 +4,7 @@ import (
 	"fmt"
 	"go/ast"
 	"go/token"
+	"go/types"
 	"strings"
 
 	"verif/checker/core"
@@ -243,4 +244,59 @@ func c04backendRulesReach(c *core.Check) {
 	c.Decide(!(backend && skip != ""), "E7-backend-rules-reach-every-file", key, c.Prog.Rel(fd.Pos()),
 		"every included file's scope is built (or no catalogue rule is enforced by the backend)",
 		"the scope of an include is only built when `"+skip+"` does not hold, and the value-kind rules of the catalogue are enforced while a scope is built (Resolver.resolveConst): `include \"a.thrift\"` with `struct A {1: i32 x = \"str\"}` in a.thrift and no reference into it is accepted with exit 0 unless -r is given")
+}
+
+// c04includeIdentity: `include "common.thrift"` written in two files of different directories names two different files;
+// what identifies an included file is what the include resolved to (Include.Reference, or its Filename), never the text
+// of the include (Include.Path). A "visited" set keyed by that text makes a walk over the include graph skip the second
+// file, and every rule the walk enforces is then not applied to it. Rule: in the compile-path packages no map is indexed
+// with the Path of a *parser.Include.
+func c04includeIdentity(c *core.Check) {
+	n := 0
+	var bad []string
+	where := ""
+	for _, rel := range []string{"semantic", "parser", "generator", "generator/golang", "generator/fastgo", "tool/trimmer/trim", "sdk", "."} {
+		pk := c.Prog.Pkg(rel)
+		if pk == nil {
+			continue
+		}
+		info := pk.TypesInfo
+		for _, f := range pk.Syntax {
+			if strings.HasSuffix(c.Prog.Fset.File(f.Pos()).Name(), "_test.go") {
+				continue
+			}
+			ast.Inspect(f, func(m ast.Node) bool {
+				ix, ok := m.(*ast.IndexExpr)
+				if !ok {
+					return true
+				}
+				tv, ok := info.Types[ix.X]
+				if !ok {
+					return true
+				}
+				if _, isMap := tv.Type.Underlying().(*types.Map); !isMap {
+					return true
+				}
+				n++
+				sel, ok := ast.Unparen(ix.Index).(*ast.SelectorExpr)
+				if !ok || sel.Sel.Name != "Path" {
+					return true
+				}
+				if xt, ok := info.Types[sel.X]; ok && strings.HasSuffix(xt.Type.String(), "parser.Include") {
+					bad = append(bad, c.Prog.Rel(ix.Pos())+": "+rules.ExprString(ix))
+					if where == "" {
+						where = c.Prog.Rel(ix.Pos())
+					}
+				}
+				return true
+			})
+		}
+	}
+	c.Analysed["map_index_sites"] = n
+	c.Decide(len(bad) == 0, "include-identity-is-resolved-file", "compile-path/map[Include.Path]", where,
+		fmt.Sprintf("%d map index expressions, none keyed by the written path of an include", n),
+		"a map is keyed by the text of an include ("+strings.Join(bad, "; ")+"): two files included as \"common.thrift\" from different directories collapse into one entry, so a walk that uses the map as its visited set never looks at the second file — its duplicate ids, enum overflows, oneway/throws and union-default errors go undiagnosed and thriftgo exits 0")
+	if n < 50 {
+		c.Unknown("include-identity-is-resolved-file", "compile-path/vacuity", "", fmt.Sprintf("only %d map index expressions were inspected", n))
+	}
 }
